@@ -206,7 +206,7 @@ Definition hit (old : str) (e : einfo) : bool :=
 (* the tokens of the replacement text: one TTxt per character of each line,
    the lines separated by the "\n" of a w:br *)
 Definition repl_toks (old new tx : str) : list tok :=
-  join_toks [TRaw 10] (map (map TTxt) (splitlines (replace old new tx))).
+  join_toks [TRaw 10] (map (map TTxt) (split_nl (replace old new tx))).
 
 (* the element built by br_of is tagged exactly w:br *)
 Lemma br_of_tag e wuri :
@@ -265,7 +265,7 @@ Proof.
 Qed.
 
 Lemma render_repl_toks old new tx :
-  render false (repl_toks old new tx) = join [10] (splitlines (replace old new tx)).
+  render false (repl_toks old new tx) = join [10] (split_nl (replace old new tx)).
 Proof. apply render_join_lines. Qed.
 
 (* item 1 of the work package (for m:t as well as w:t) *)
@@ -275,7 +275,7 @@ Theorem emit_replaced_text_node : forall v path i old new e c tx wuri,
   exists ns, replace_node old new (AE e []) = Ok ns
     /\ emit_kids v path ns i = Ok (repl_toks old new (c :: tx))
     /\ render false (repl_toks old new (c :: tx))
-       = join [10] (splitlines (replace old new (c :: tx))).
+       = join [10] (split_nl (replace old new (c :: tx))).
 Proof.
   intros v path i old new e c tx wuri Ht Htx Hc Hw.
   eexists. split; [apply (replace_node_hit old new e [] c tx wuri Htx Hc Hw)|].
@@ -305,7 +305,7 @@ Lemma replace_node_cases old new e ks :
       wuri <- of_opt KeyError (e_wuri e) ;;
       Ok (interleave (br_of e wuri)
             (map (fun l => AE (with_text e l) ks)
-                 (splitlines (replace old new (ostr (e_text e))))))
+                 (split_nl (replace old new (ostr (e_text e))))))
     else ks' <- rkids old new ks ;; Ok [AE e ks'].
 Proof.
   rewrite replace_node_AE. unfold hit.
@@ -394,7 +394,7 @@ Fixpoint itertext_inner_repl (old new : str) (t : anode) : str :=
   | AE e ks =>
       if hit old e then
         concat (map (fun l => l ++ concat (map itertext_inner ks) ++ ostr (e_tail e))
-                    (splitlines (replace old new (ostr (e_text e)))))
+                    (split_nl (replace old new (ostr (e_text e)))))
       else ostr (e_text e) ++ concat (map (itertext_inner_repl old new) ks) ++ ostr (e_tail e)
   end.
 
@@ -1393,8 +1393,12 @@ Proof.
 Qed.
 
 (* (b) without it the statement is false of the model (for an einfo no parser
-   produces): a "w:t" element whose local name is "checked", inside a
-   w:checkBox, replaced by the empty string disappears and changes the box *)
+   produces): a "w:t" element whose local name is "listEntry", inside a
+   w:ddList whose w:result selects entry 1, replaced by two lines is repeated
+   once per line and so changes the selected entry (from none to its own).
+   (Before 101554e the example was a w:t named "checked" replaced by the empty
+   string, which then disappeared; re.split never returns the empty list, so
+   that element now stays.) *)
 Fixpoint text_leaves0 (t : anode) : bool :=
   match t with
   | AX _ => true
@@ -1406,14 +1410,18 @@ Fixpoint text_leaves0 (t : anode) : bool :=
   end.
 
 Definition cx_U : str := [85].
-Definition cx_checked : anode :=
-  AE {| e_ptag := tag_TEXT; e_uri := Some cx_U; e_local := s_checked; e_wuri := Some cx_U;
-        e_ruri := None; e_attrs := [((Some cx_U, s_val), [49])]; e_text := Some [88];
+Definition cx_entry : anode :=
+  AE {| e_ptag := tag_TEXT; e_uri := Some cx_U; e_local := s_listEntry; e_wuri := Some cx_U;
+        e_ruri := None; e_attrs := [((Some cx_U, s_val), [65])]; e_text := Some [88];
         e_tail := None |} [].
+Definition cx_result : anode :=
+  AE {| e_ptag := prefixed (Some s_w) s_result; e_uri := Some cx_U; e_local := s_result;
+        e_wuri := Some cx_U; e_ruri := None; e_attrs := [((Some cx_U, s_val), [49])];
+        e_text := None; e_tail := None |} [].
 Definition cx_box : anode :=
-  AE {| e_ptag := tag_FORM_CHECKBOX; e_uri := Some cx_U; e_local := [99;104;101;99;107;66;111;120];
+  AE {| e_ptag := tag_FORM_DDLIST; e_uri := Some cx_U; e_local := [100;100;76;105;115;116];
         e_wuri := Some cx_U; e_ruri := None; e_attrs := []; e_text := None; e_tail := None |}
-     [cx_checked].
+     [cx_entry; cx_result].
 Definition cx_env0 : env := {| env_x2h := []; env_rels := []; env_dup := false; env_numtbl := [] |}.
 
 Lemma emit_replace_nodewise_counterexample :
@@ -1422,7 +1430,7 @@ Lemma emit_replace_nodewise_counterexample :
     /\ wuri_at_hits old t = true /\ replace_node old new t = Ok ns
     /\ emit_kids v [] ns 0 <> emit_repl v old new t.
 Proof.
-  exists cx_env0, [88], [], cx_box. eexists.
+  exists cx_env0, [88], [97; 10; 98], cx_box. eexists.
   repeat (split; [vm_compute; reflexivity|]).
   vm_compute. discriminate.
 Qed.
